@@ -12,7 +12,8 @@
    C16_sep_*_refuted theorems show each clause failing (known finding F20). *)
 From stdpp Require Import gmap relations.
 From Coq Require Import NArith.
-From Synnax Require Import Core.Ontology Core.OntologyStr Core.OntologyProofs.
+From Synnax Require Import Core.Ontology Core.OntologyStr Core.OntologyProofs Monitors.Mon_C16
+  Core.OntologyMonProofs.
 Local Open Scope N_scope.
 
 (* (1) At all times — after every history of define/delete resource, define (single,
@@ -163,6 +164,20 @@ Proof.
   - simpl. rewrite E. reflexivity.
 Qed.
 Print Assumptions C16_transactions.
+
+(* (6) the graph search of the monitor (Monitors/Mon_C16.v), which is applied to the
+   implementation's observed edge lists — cyclic ones included —, is correct: it lists exactly
+   the vertices reachable by one or more edges, decides acyclicity and decides whether an edge
+   may be added. *)
+Theorem C16_monitor_search_correct : forall E,
+  (forall a y, y ∈ reachable E a <-> tc (ledge E) a y) /\
+  (acyclic_obs E = true <-> forall a, ~ tc (ledge E) a a) /\
+  (forall f t, closes_no_cycle E f t = true <-> ~ rtc (ledge E) t f).
+Proof.
+  intros E. split; [intros; apply reachable_spec|].
+  split; [apply acyclic_obs_spec|intros; apply closes_no_cycle_spec].
+Qed.
+Print Assumptions C16_monitor_search_correct.
 
 (* ---- what the pinned upstream code did (findings F10, F11, repaired in /repo) ---- *)
 Definition a1 := Id [97] [49].
